@@ -1,66 +1,9 @@
 import Gms.Driver.Proto
 import Gms.Model.Priv
-open Gms.Proto Gms.Priv
+import Gms.Driver.AclParse
+open Gms.Proto Gms.Priv Gms.AclParse
 
 /-! Line-protocol driver for C39: one history per line, see harness/cmd/c39/main.go. -/
-
-def bytesToString (bs : List UInt8) : String := String.ofList (bs.map (fun b => Char.ofNat b.toNat))
-
-def sx (s : Sexp) : Option String := s.bytes?.map bytesToString
-
-def flag (s : Sexp) : Option Bool :=
-  match s with
-  | .atom "1" => some true
-  | .atom "0" => some false
-  | _ => none
-
-def pair (s : Sexp) : Option (String × String) :=
-  match s with
-  | .list [a, b] => do some ((← sx a), (← sx b))
-  | _ => none
-
-def pairs (s : Sexp) : Option (List (String × String)) :=
-  match s with
-  | .list xs => xs.mapM pair
-  | _ => none
-
-def ppriv (s : Sexp) : Option PPriv :=
-  match s with
-  | .list [t, d, c] => do some { type := (← t.nat?), dyn := (← sx d), cols := (← flag c) }
-  | _ => none
-
-def ppriv_list (s : Sexp) : Option (List PPriv) :=
-  match s with
-  | .list xs => xs.mapM ppriv
-  | _ => none
-
-def parseStmt (s : Sexp) : Option Stmt :=
-  match s with
-  | .list [.atom "none"] => some .none
-  | .list [.atom "cu", f, us] => do some (.createUser (← flag f) (← pairs us))
-  | .list [.atom "cr", f, us] => do some (.createRole (← flag f) (← pairs us))
-  | .list [.atom "du", f, us] => do some (.dropUser (← flag f) (← pairs us))
-  | .list [.atom "dr", f, us] => do some (.dropRole (← flag f) (← pairs us))
-  | .list [.atom "grant", d, t, ot, ps, us, wgo, as_] => do
-    some (.grant (← sx d) (← sx t) (← ot.nat?) (← ppriv_list ps) (← pairs us) (← flag wgo) (← flag as_))
-  | .list [.atom "revoke", d, t, ot, ps, us, ign] => do
-    some (.revoke (← sx d) (← sx t) (← ot.nat?) (← ppriv_list ps) (← pairs us) (← flag ign))
-  | .list [.atom "gr", rs, us, adm] => do some (.grantRole (← pairs rs) (← pairs us) (← flag adm))
-  | .list [.atom "rr", rs, us, ie, ign] => do some (.revokeRole (← pairs rs) (← pairs us) (← flag ie) (← flag ign))
-  | _ => none
-
-def parseCall (s : Sexp) : Option Call :=
-  match s with
-  | .list [.atom "ha", a, t, .list ns] => do some (.ha (← sx a) (← sx t) (← ns.mapM sx))
-  | .list [.atom "cd", d] => do some (.cd (← sx d))
-  | .list [.atom "ct", d, t] => do some (.ct (← sx d) (← sx t))
-  | _ => none
-
-def parseStep (s : Sexp) : Option Step :=
-  match s with
-  | .list [.atom "s", u, h, cur, .list calls, stmt] => do
-    some { who := ((← sx u), (← sx h)), cur := (← sx cur), calls := (← calls.mapM parseCall), stmt := (← parseStmt stmt) }
-  | _ => none
 
 def handle (p : List Sexp) : String :=
   match p with
@@ -68,10 +11,23 @@ def handle (p : List Sexp) : String :=
     match steps.mapM parseStep with
     | none => answer "bad-case"
     | some steps =>
-      let impl := " ".intercalate (runHist implPS (initSt implPS) steps)
-      let spec := " ".intercalate (runHist specPS (initSt specPS) steps)
+      let impl := " ".intercalate (runHist implPS false (initSt implPS) steps)
+      let spec := " ".intercalate (runHist specPS true (initSt specPS) steps)
       if impl = spec then answer impl
-      else answer impl spec (if histRegion (initSt specPS) steps then "db_revoke_drops_lower_grants" else "-")
+      else
+        -- which of the two known defects explains the difference?
+        let onlyRevoke := " ".intercalate (runHist implPS true (initSt implPS) steps)   -- atomic, but RemoveDatabase as implemented
+        let onlyPartial := " ".intercalate (runHist specPS false (initSt specPS) steps) -- exact sets, but no atomicity
+        let inRevoke := histRegion (initSt specPS) steps
+        let inFailed := histFailed (initSt specPS) steps
+        let region :=
+          if inRevoke && impl = onlyRevoke then "db_revoke_drops_lower_grants"
+          else if inFailed && impl = onlyPartial then "failed_statement_partial_effect"
+          else if inRevoke && inFailed then "db_revoke_drops_lower_grants"
+          else if inRevoke then "db_revoke_drops_lower_grants"
+          else if inFailed then "failed_statement_partial_effect"
+          else "-"
+        answer impl spec region
   | _ => answer "bad-case"
 
 def main : IO Unit := runPure handle
